@@ -83,6 +83,9 @@ def pattern_alphabet(fn_name, gen_name):
         ("&mut N(ref mut j)", "&mut N"),
         # raw identifiers inside destructuring patterns, named like what the macro generates
         ("N(r#%s)" % gen_name, "N"), ("N(r#%s_)" % plain, "N"), ("S { r#%s, .. }" % gen_name, "S"), ("r#%s_" % plain, "u8"),
+        # or-patterns: one binding occurring in every alternative - also spelled once raw and once plain (one name)
+        ("(Ok(v1) | Err(v1))", "Result<u8, u8>"), ("(Ok(r#v2) | Err(v2))", "Result<u8, u8>"),
+        ("(N(r#w1) | N(r#w1))", "N"), ("(Ok((p1, p2)) | Err((p2, p1)))", "Result<(u8, u8), (u8, u8)>"),
     ]
 
 
